@@ -57,7 +57,14 @@ fn gen_labels(src: &mut Src, reserved: &str) -> Vec<(String, String)> {
     let n = src.below(6);
     let pool: Vec<&str> = VALID_LABEL_NAMES.iter().copied().filter(|n| *n != reserved).collect();
     let names = distinct(src, &pool, n);
-    names.into_iter().map(|n| (n.to_string(), gen_text(src))).collect()
+    let mut out: Vec<(String, String)> = names.into_iter().map(|n| (n.to_string(), gen_text(src))).collect();
+    if n == 5 && src.chance(60) {
+        // the library imposes no limit on the number of labels: occasionally many more
+        for k in 0..src.below(40) {
+            out.push((format!("w{}", k), gen_text(src)));
+        }
+    }
+    out
 }
 
 pub fn gen_value(src: &mut Src, ty: NType) -> NValue {
@@ -66,7 +73,10 @@ pub fn gen_value(src: &mut Src, ty: NType) -> NValue {
         NType::Gauge => NValue::Gauge(src.f64v(&[])),
         NType::Untyped => NValue::Untyped,
         NType::Histogram => {
-            let nb = src.below(9);
+            let mut nb = src.below(9);
+            if nb == 8 && src.chance(80) {
+                nb += src.below(150);
+            }
             let mut buckets = vec![];
             for _ in 0..nb {
                 let ub = if src.chance(24) { f64::INFINITY } else { src.f64v(&[]) };
@@ -75,7 +85,10 @@ pub fn gen_value(src: &mut Src, ty: NType) -> NValue {
             NValue::Histogram { count: gen_count(src), sum: src.f64v(&[]), buckets }
         }
         NType::Summary => {
-            let nq = src.below(5);
+            let mut nq = src.below(5);
+            if nq == 4 && src.chance(80) {
+                nq += src.below(60);
+            }
             let mut quantiles = vec![];
             for _ in 0..nq {
                 quantiles.push((src.f64v(&[]), src.f64v(&[])));
@@ -99,7 +112,10 @@ pub fn gen_custom(src: &mut Src, o: &GenOpts) -> Vec<NFamily> {
             3 => NType::Summary,
             _ => NType::Untyped,
         };
-        let ns = if o.allow_empty_family && src.chance(20) { 0 } else { 1 + src.below(5) };
+        let mut ns = if o.allow_empty_family && src.chance(20) { 0 } else { 1 + src.below(5) };
+        if ns == 5 && src.chance(40) {
+            ns += src.below(150);
+        }
         let mut samples = vec![];
         for _ in 0..ns {
             let reserved = match ty {
